@@ -444,9 +444,12 @@ def run(tier, seed):
         sh += [([(f, g)], MENU_A[:10], 6, INPUT_LISTS, 6) for f in MENU_A[:10] for g in MENU_A[:10]]
     explore.pmap(_shard, sh, rep, seed)
     mb = menu_b()
-    db = 2 if quick else 3
+    db = 2
     explore.pmap(_shard, [([f], mb, 1, INPUT_LISTS) for f in mb] + [([(f, g) for g in mb[i:i + 8]], mb, db, INPUT_LISTS) for f in mb for i in range(0, len(mb), 8)], rep, seed)
-    n_hist = (sum(len(MENU_A) ** k for k in range(1, da + 1)) + (0 if quick else 10 ** 6)) * len(INPUT_LISTS) + sum(len(mb) ** k for k in range(1, db + 1)) * len(INPUT_LISTS)
+    core = mb[::3]       # thorough: histories of exactly 3 operations over every third operation of menu B (all 133^3 would be 19M runs)
+    if not quick:
+        explore.pmap(_shard, [([(f, g)], core, 3, INPUT_LISTS, 3) for f in core for g in core], rep, seed)
+    n_hist = (sum(len(MENU_A) ** k for k in range(1, da + 1)) + (0 if quick else 10 ** 6)) * len(INPUT_LISTS) + (sum(len(mb) ** k for k in range(1, db + 1)) + (0 if quick else len(core) ** 3)) * len(INPUT_LISTS)
     explore.pmap(_bfs_shard, [(inp, mb, 12) for inp in INPUT_LISTS], rep, seed)
     names = [t for t, _ in E2E_TEXTS]
     tl = [tuple(c) for n in range(0, 4) for c in itertools.product(names if n < 3 else names[:4], repeat=n)]
@@ -463,7 +466,7 @@ def run(tier, seed):
                        "with concrete stacks",
     })
     rep.rule = ("input lists of length 0..4 (distinct sentinels) x ALL histories of length <=%d [thorough: plus length 6 over its first ten operations] over the 12-operation menu A "
-                "(? _ \" ∇ push, λ1 / λ2 with inner reads, a named function, a list literal, an early return, a map over ⟨7|8⟩ with a λ2, the input element under the conditional-execute modifier) without dedup; ALL histories of length <=%d over "
+                "(? _ \" ∇ push, λ1 / λ2 with inner reads, a named function, a list literal, an early return, a map over ⟨7|8⟩ with a λ2, the input element under the conditional-execute modifier) without dedup; ALL histories of length <=%d [thorough: plus length 3 over every third operation] over "
                 "the %d-operation menu B (lambda arities 0-2 x 10 inner read sequences incl. nested lambdas, functions, list items, "
                 "loops); BFS with dedup on (cursor mod n, stack height capped at 3) to depth 12 over menu B. Distinct = (history, inputs). "
                 "End to end: main.execute_vyxal (offline and online) with every list of 0..3 input TEXTS over %d texts (incl. ones that evaluate "
